@@ -61,8 +61,8 @@ SubsetOf(h, t, keepIdx, base, off, cap) ==
                  IF u \in DOMAIN h THEN h[u]
                  ELSE [h[kept[u - base + 1]] EXCEPT !.idx = off + u - base,
                                                     !.serial = IF cap.serial = "keep" THEN @
-                                                               \* (the writer renumbers only topologies with two or more chains)
-                                                               ELSE IF cap.serial = "renumber" THEN (IF Len(chs) >= 2 THEN u - base + 1 + TerBefore(u) ELSE @) ELSE 0]],
+                                                               \* (the writer renumbers only topologies with two or more chains, or atoms that carry no serial)
+                                                               ELSE IF cap.serial = "renumber" THEN (IF Len(chs) >= 2 \/ @ = 0 THEN u - base + 1 + TerBefore(u) ELSE @) ELSE 0]],
       n |-> Len(kept)]
 All(t) == 0..(Len(t.atoms) - 1)
 \* edits are probes: a transformation is only taken FROM a topology that has not been edited (the edited object itself is not
